@@ -1103,6 +1103,10 @@ class Interp:
             f = vals[0]
             args = tuple(vals[1 : 1 + len(node.args)])
             kwargs = tuple((kw.arg, v) for kw, v in zip(node.keywords, vals[1 + len(node.args) :]))
+            if f == ("glob", "ext:builtins.getattr") and len(args) == 2 and not kwargs and args[1][0] == "const" and isinstance(args[1][1], str) and args[1][1].isidentifier():
+                # getattr(o, NAME) with NAME a known string on this path is the attribute o.NAME
+                out.append(("value", p, ("attr", args[0], args[1][1])))
+                continue
             out.extend(self.apply(f, args, kwargs, p, node, awaited))
         return out
 
